@@ -45,6 +45,14 @@ Second group (`translate_objects`): the small functions around the parsed zones,
   tzrangebase.__ne__                `return not (self == other)` over the translated `tzrange.__eq__`
   tzrangebase.__init__              `raise NotImplementedError(...)`
   _tzinfo._fold                     `getattr(dt, 'fold', 0)` = the datetime's fold (Python >= 3.6)
+  enfold (tz/_common.py)            the definition that is live on this interpreter (the branch of the module-level
+                                    `if hasattr(datetime, 'fold'):` is decided at translation time): `dt.replace(fold=fold)` =
+                                    RfcPy.replaceFold (ValueError unless fold is 0 or 1)
+  tzname_in_python2                 the decorator: with `six.PY2` false (decided at translation time) it returns its argument
+  tzical.__init__                   the argument is `RfcPy.FileArg` (a path, opened with `open(fileobj, 'r')`, or a stream wrapped in
+                                    `_nullcontext`; either way what `fobj.read()` yields, or the exception of open/read); `self._s` (only
+                                    used by __repr__) is not kept; `self._vtz = {}` must precede the `with`; the body of the `with` must be
+                                    `self._parse_rfc(fobj.read())`
 Third group (`translate_factory_inits`, tz/_factories.py): the metaclass constructors `_TzSingleton.__init__`, `_TzOffsetFactory.__init__`,
 `_TzStrFactory.__init__` as the initial shared state `Fact.Glob` of the factory machine (C18): `weakref.WeakValueDictionary()` = the
 empty weak map, `OrderedDict()` = the empty strong cache, the integer literal = its capacity, `_thread.allocate_lock()` = a free lock,
@@ -590,6 +598,88 @@ def translate_objects(tree, common):
     return "\n".join(out), fps
 
 
+def translate_tzical_init(tree):
+    fn = find_function(tree, "tzical.__init__")
+    if [a.arg for a in fn.args.args] != ["self", "fileobj"]: raise Untranslatable("signature of tzical.__init__")
+    body = [st for st in fn.body if not isinstance(st, (ast.Global, ast.Import, ast.ImportFrom)) and not (isinstance(st, ast.Expr) and isinstance(st.value, ast.Constant))]
+    if len(body) != 3: raise Untranslatable("tzical.__init__: %d statements after the imports" % len(body))
+    br, vt, wi = body
+    def sets_s_and_rebinds(stmts, how):
+        if len(stmts) != 2: return False
+        a, b = stmts
+        if not (isinstance(a, ast.Assign) and len(a.targets) == 1 and isinstance(a.targets[0], ast.Attribute) and a.targets[0].attr == "_s"): return False
+        if not (isinstance(b, ast.Assign) and len(b.targets) == 1 and isinstance(b.targets[0], ast.Name) and b.targets[0].id == "fileobj"
+                and isinstance(b.value, ast.Call) and isinstance(b.value.func, ast.Name) and b.value.func.id == how
+                and b.value.args and isinstance(b.value.args[0], ast.Name) and b.value.args[0].id == "fileobj"): return False
+        if how == "open" and not (len(b.value.args) == 2 and isinstance(b.value.args[1], ast.Constant) and b.value.args[1].value == "r" and not b.value.keywords): return False
+        if how == "_nullcontext" and (len(b.value.args) != 1 or b.value.keywords): return False
+        return True
+    ok = isinstance(br, ast.If) and isinstance(br.test, ast.Call) and isinstance(br.test.func, ast.Name) and br.test.func.id == "isinstance" \
+        and len(br.test.args) == 2 and isinstance(br.test.args[0], ast.Name) and br.test.args[0].id == "fileobj" \
+        and isinstance(br.test.args[1], ast.Name) and br.test.args[1].id == "string_types" \
+        and sets_s_and_rebinds(br.body, "open") and sets_s_and_rebinds(br.orelse, "_nullcontext")
+    if not ok: raise Untranslatable("tzical.__init__: the path / stream branch")
+    if not (isinstance(vt, ast.Assign) and len(vt.targets) == 1 and isinstance(vt.targets[0], ast.Attribute) and vt.targets[0].attr == "_vtz"
+            and isinstance(vt.value, ast.Dict) and not vt.value.keys):
+        raise Untranslatable("tzical.__init__: self._vtz = {}")
+    ok = isinstance(wi, ast.With) and len(wi.items) == 1 and isinstance(wi.items[0].context_expr, ast.Name) and wi.items[0].context_expr.id == "fileobj" \
+        and isinstance(wi.items[0].optional_vars, ast.Name) and len(wi.body) == 1 and isinstance(wi.body[0], ast.Expr)
+    if ok:
+        c = wi.body[0].value
+        v = wi.items[0].optional_vars.id
+        ok = isinstance(c, ast.Call) and isinstance(c.func, ast.Attribute) and c.func.attr == "_parse_rfc" and isinstance(c.func.value, ast.Name) \
+            and c.func.value.id == "self" and len(c.args) == 1 and not c.keywords and isinstance(c.args[0], ast.Call) and not c.args[0].args \
+            and isinstance(c.args[0].func, ast.Attribute) and c.args[0].func.attr == "read" and isinstance(c.args[0].func.value, ast.Name) and c.args[0].func.value.id == v
+    if not ok: raise Untranslatable("tzical.__init__: with fileobj as fobj: self._parse_rfc(fobj.read())")
+    text = ("/-- translated from `tzical.__init__`: open / wrap the argument, start from an empty `_vtz`, parse what `read()` returns -/\n"
+            "def tzical_init (rrulestr : ICal.RRuleLib) (fileobj : RfcPy.FileArg) : Py.R ICal.PState :=\n"
+            "  -- if isinstance(fileobj, string_types): fileobj = open(fileobj, 'r')  else: fileobj = _nullcontext(fileobj)\n"
+            "  -- self._vtz = {}   (the translated _parse_rfc starts from the empty record)\n"
+            "  Except.bind (RfcPy.FileArg.openRead fileobj) fun t1 =>\n"
+            "  tzical_parseRfc rrulestr t1\n")
+    return text, {"tzical.__init__": hashlib.sha256(ast.dump(fn).encode()).hexdigest()[:16]}
+
+
+def translate_common_helpers(common):
+    """`enfold` and `tzname_in_python2`: module-level / interpreter-dependent branches are decided the way this interpreter decides them"""
+    import datetime as _dt, six
+    out, fps = [], {}
+    # enfold: the live definition
+    live = None
+    for node in common.body:
+        if isinstance(node, ast.If) and isinstance(node.test, ast.Call) and isinstance(node.test.func, ast.Name) and node.test.func.id == "hasattr" \
+                and len(node.test.args) == 2 and isinstance(node.test.args[0], ast.Name) and node.test.args[0].id == "datetime" \
+                and isinstance(node.test.args[1], ast.Constant) and node.test.args[1].value == "fold":
+            branch = node.body if hasattr(_dt.datetime, "fold") else node.orelse
+            for st in branch:
+                if isinstance(st, ast.FunctionDef) and st.name == "enfold": live = st
+    if live is None: raise Untranslatable("enfold: no live definition under `if hasattr(datetime, 'fold')`")
+    if [a.arg for a in live.args.args] != ["dt", "fold"] or len(live.args.defaults) != 1 or not (isinstance(live.args.defaults[0], ast.Constant) and live.args.defaults[0].value == 1):
+        raise Untranslatable("signature of enfold")
+    body = [st for st in live.body if not (isinstance(st, ast.Expr) and isinstance(st.value, ast.Constant))]
+    ok = len(body) == 1 and isinstance(body[0], ast.Return) and isinstance(body[0].value, ast.Call) and isinstance(body[0].value.func, ast.Attribute) \
+        and body[0].value.func.attr == "replace" and isinstance(body[0].value.func.value, ast.Name) and body[0].value.func.value.id == "dt" \
+        and not body[0].value.args and len(body[0].value.keywords) == 1 and body[0].value.keywords[0].arg == "fold" \
+        and isinstance(body[0].value.keywords[0].value, ast.Name) and body[0].value.keywords[0].value.id == "fold"
+    if not ok: raise Untranslatable("enfold body")
+    out.append("/-- translated from `enfold` (tz/_common.py, the definition live on Python >= 3.6; default `fold=1`) -/\n"
+               "def enfold (dt : DtPy.Dt) (fold : Int := 1) : Py.R DtPy.Dt :=\n  RfcPy.replaceFold dt fold\n")
+    fps["enfold"] = hashlib.sha256(ast.dump(live).encode()).hexdigest()[:16]
+    # tzname_in_python2
+    fn = find_function(common, "tzname_in_python2")
+    body = [st for st in fn.body if not (isinstance(st, ast.Expr) and isinstance(st.value, ast.Constant))]
+    if [a.arg for a in fn.args.args] != ["namefunc"] or len(body) != 1 or not isinstance(body[0], ast.If) \
+            or not (isinstance(body[0].test, ast.Name) and body[0].test.id == "PY2"):
+        raise Untranslatable("tzname_in_python2 shape")
+    branch = body[0].body if six.PY2 else body[0].orelse
+    if not (len(branch) == 1 and isinstance(branch[0], ast.Return) and isinstance(branch[0].value, ast.Name) and branch[0].value.id == "namefunc"):
+        raise Untranslatable("tzname_in_python2: the Python 3 branch does not return its argument")
+    out.append("/-- translated from `tzname_in_python2` with `six.PY2` false: the decorator returns the method it is given -/\n"
+               "def tznameInPython2 {α : Type} (namefunc : α) : α :=\n  namefunc\n")
+    fps["tzname_in_python2"] = hashlib.sha256(ast.dump(fn).encode()).hexdigest()[:16]
+    return "\n".join(out), fps
+
+
 def translate_factory_inits(tree):
     out, fps = [], {}
     for cls, lean in (("_TzSingleton", "tzSingleton_init"), ("_TzOffsetFactory", "tzOffsetFactory_init"), ("_TzStrFactory", "tzStrFactory_init")):
@@ -634,7 +724,11 @@ def translate_files(src_root, groups):
     fps["tzical._parse_rfc"] = fp
     text3, fps3 = translate_factory_inits(ast.parse(open(os.path.join(src_root, "tz", "_factories.py")).read()))
     fps.update(fps3)
-    return text + "\n" + text2 + "\n" + text3, fps
+    text4, fps4 = translate_common_helpers(common)
+    fps.update(fps4)
+    text5, fps5 = translate_tzical_init(tree)
+    fps.update(fps5)
+    return text + "\n" + text2 + "\n" + text3 + "\n" + text4 + "\n" + text5, fps
 
 
 RFC_GROUPS = [("tz/tz.py", ["tzical._parse_rfc"])]
